@@ -19,6 +19,7 @@ from binascii import a2b_base64
 from binascii import b2a_base64
 
 from DocumentTemplate._DocumentTemplate import InstanceDict
+from DocumentTemplate._DocumentTemplate import join_unicode
 from DocumentTemplate._DocumentTemplate import render_blocks
 from DocumentTemplate.DT_String import String
 from DocumentTemplate.DT_Util import Eval
@@ -246,7 +247,7 @@ def tpRender(self, md, section, args,
         state = encode_seq(state)
         md['RESPONSE'].setCookie('tree-s', state, same_site='Lax')
 
-    return ''.join(data)
+    return join_unicode(data, encoding=encoding)
 
 
 def tpRenderTABLE(self, id, root_url, url, state, substate, diff, data,
